@@ -1948,3 +1948,16 @@ def canon_atoms(atoms):
                     break
         out[k] = v
     return out
+
+
+def peel_ok(e):
+    """the value a fallible expression yields on success: strips `x?`, `x.await`-less casts and the explicit
+    `match x { Ok(v) => v, .. }` / `Some(v)` payload projection, down to the producing expression"""
+    for _ in range(12):
+        if e[0] in ('try', 'cast'):
+            e = e[1]
+        elif e[0] == 'field' and e[2] == '0' and e[1][0] == 'variant' and e[1][2] in ('Ok', 'Some'):
+            e = e[1][1]
+        else:
+            break
+    return e
